@@ -238,7 +238,7 @@ def run(run):
             # the two logging switches: the same differential C16.d runs (function bodies equal after erasing exactly the logging
             # statements), as a clause of C19 as well
             from rules import c16 as _c16
-            for a_, b_ in (('PSH', 'PSHL'), ('PH', 'PHV')):
+            for a_, b_ in (('PSH', 'PSHL'), ('PH', 'PHV'), ('P', 'PL')):
                 for v_ in facts.variants(run.tier):
                     run.guard('differential', _c16.differential, run, a_, b_, v_)
             run.relabel('C16.d', 'C19.b')
